@@ -10,8 +10,8 @@ from autobean_refactor.models import base as mbase
 CASES = {'quick': 3000, 'thorough': 60000}
 SMALL_BLOCKS = 4      # runner: every 4th case keeps its stores in 2..10-token blocks
 GATES = {
-    'quick': {'kind:meta:popitem': 50, 'kind:rawmeta:setexisting': 10, 'kind:rawmeta:popitem': 10, 'cases_in_small_blocks': 50, 'evaluations': 12000, 'steps_changing_raw_list': 5500, 'ordered_view_pairs': 30, 'families_seen': 6,
-              'read_probes': 100000, 'refusals_matched': 1500, 'meta_mapping_steps': 500, 'attribution_steps': 600},
+    'quick': {'kind:meta:popitem': 50, 'kind:rawmeta:setexisting': 10, 'kind:rawmeta:popitem': 10, 'cases_in_small_blocks': 50, 'evaluations': 12000, 'steps_changing_raw_list': 4500, 'ordered_view_pairs': 30, 'families_seen': 6,
+              'read_probes': 100000, 'refusals_matched': 1200, 'meta_mapping_steps': 500, 'attribution_steps': 600},
     'thorough': {'evaluations': 400000, 'ordered_view_pairs': 30, 'families_seen': 6},
 }
 RULE = ('case = one accepted generated document; every view of every repeated field is read first (so all incremental index tables '
@@ -97,6 +97,12 @@ def probe_view(col, w, exp, mode, label):
                 return f'{label}[{bad}] did not raise IndexError (len {n})'
             except IndexError:
                 pass
+        # equality with a list: equal to its own elements, not to a shorter or longer list (also one padded with None)
+        own = list(w)
+        if not (w == own):
+            return f'{label} != list({label})'
+        if w == own + [None] or (n and w == own[:-1]):
+            return f'{label} == a list of another length'
         if n:
             x = exp[n // 2]
             if x not in w:
@@ -139,6 +145,17 @@ def probe_meta(col, w, items, label, raw_values):
             pass
         if len(w) != len(items):
             return f'len({label}) == {len(w)} with {len(items)} items'
+        # the key / value / item views are collections in their own right: membership, set operations, repr
+        kv, vv, iv = w.keys(), w.values(), w.items()
+        repr(kv), repr(vv), repr(iv)
+        for k, it in ref.items():
+            if k not in kv or (k, w[k]) not in iv or w[k] not in vv:
+                return f'membership in {label}.keys()/.items()/.values() fails for {k!r}'
+        if 'zz-missing' in kv or ('zz-missing', 1) in iv:
+            return f'{label}.keys()/.items() claim to contain a missing key'
+        if (kv & set(ref)) != set(ref) or (kv - set(ref)):
+            return f'set operations on {label}.keys() disagree with the keys'
+        col.count('dict_view_probes')
     except Exception as e:
         return f'reading {label} raised {type(e).__name__}: {e}'
     return None
